@@ -148,6 +148,7 @@ static const size_t STACK_SIZE = 256 * 1024;
 int vf_self (void) { return (cur); }
 int64_t vf_now (void) { return (now_ns); }
 long vf_steps (void) { return (steps); }
+int vf_plain_sched (void) { return (cfg.plain_sched); }
 /* is fiber k asleep on a semaphore / futex (or finished)?  used by scenario ops that order set-up deterministically */
 int vf_fiber_blocked (int k) { return (k >= 0 && k < nfibers && (fibers[k].st == F_BLOCKED_SEM || fibers[k].st == F_BLOCKED_FUTEX || fibers[k].st == F_DONE)); }
 const int *vf_schedule (int *len) { *len = sched_len; return (sched_rec); }
